@@ -164,7 +164,7 @@ func c14(tier string, args []string) int {
 	}
 	r.Assume = []string{
 		"two logical threads: one real Poll() tick over the 1..3 unconsumed board messages, and one API request; scheduling points at every state-store operation (Get/Set/Delete/GetOrError/LoadOffset/SaveOffset/Reset), every board Send/GetMessages and every lock of the node packages; pre-emption bound " + fmt.Sprint(bound),
-		"scenarios are generated from the recorded ceremony: every (node, pending operation, unconsumed messages of other participants) triple, plus a state reset and a reinitialisation completion",
+		"every execution runs on a node process built anew over the restored store (cold), and once more after the operator listed operations and rounds (warm)", "scenarios are generated from the recorded ceremony: every (node, pending operation, unconsumed messages of other participants) triple, plus a state reset and a reinitialisation completion",
 		"the state store is the harness MemState behind a hooking wrapper (one State call = one atomic step, as with LevelDBState's per-call mutex)",
 	}
 	rec := getRecording(r, 3, 2)
@@ -289,9 +289,16 @@ func c14(tier string, args []string) int {
 		if r.TimeUp() {
 			break
 		}
-		e, d := runC14(r, rec, sc, bound)
+		e, d := runC14(r, rec, sc, bound, false)
 		execs += e
 		distinct += d
+		if sc.APITag != "reset-state" {
+			sc2 := sc
+			sc2.Name += " [operations and rounds were listed before]"
+			e, d = runC14(r, rec, sc2, bound, true)
+			execs += e
+			distinct += d
+		}
 	}
 	r.Set("evaluations", execs)
 	r.Set("schedules", execs)
@@ -351,7 +358,12 @@ func reinitScenario(r *kit.Run) (c14Scenario, bool) {
 	return sc, true
 }
 
-func runC14(r *kit.Run, rec *world.Recording, sc c14Scenario, bound int) (int, int) {
+// runC14 explores one scenario. Every execution runs on a node PROCESS built anew over the
+// restored store (service objects, repositories, poller): whatever the services keep in memory
+// is what a process has that was started on this store - cold when warm is false; with warm set
+// the operator has listed the pending operations and the rounds once before (what the command
+// line client does all the time), so anything the services remember from reads is filled.
+func runC14(r *kit.Run, rec *world.Recording, sc c14Scenario, bound int, warm bool) (int, int) {
 	w := rec.W
 	mem := world.NewMemState(world.Topic)
 	board := world.NewBoard()
@@ -370,16 +382,28 @@ func runC14(r *kit.Run, rec *world.Recording, sc c14Scenario, bound int) (int, i
 	if sc.Key != nil {
 		name, kp = sc.Name2, sc.Key
 	}
-	nd, err := world.NewNodeOver(name, kp, &world.HookedState{Inner: mem, Hook: hook}, handle)
-	if err != nil {
-		r.Infra("node: %v", err)
-	}
-	defer nd.Stop()
+	var nd *world.Node
+	defer func() {
+		if nd != nil {
+			nd.Stop()
+		}
+	}()
 	reset := func() {
+		if nd != nil {
+			nd.Stop()
+		}
 		mem.Restore(sc.Base)
 		board.SetLog(sc.Log)
 		handle.UnignoreMessages()
-		nd.Svc.SetSkipCommKeysVerification(false)
+		var err error
+		nd, err = world.NewNodeOver(name, kp, &world.HookedState{Inner: mem, Hook: hook}, handle)
+		if err != nil {
+			r.Infra("node: %v", err)
+		}
+		if warm {
+			_, _ = nd.Ops.GetOperations()
+			_, _ = nd.FSM.GetFSMList()
+		}
 	}
 	poll := func() {
 		if err := nd.Tick(-1); err != nil {
